@@ -1,6 +1,6 @@
 # Read by bin/mkmanifest.
 # THOROUGH_OK: properties whose thorough tier ran to completion (exit 0) on the unchanged tree; filled from measurements.
-THOROUGH_OK.update([])
+THOROUGH_OK.update(["C01","C02","C03","C04","C05","C06","C07","C08","C09","C10","C11","C12","C13","C14","C20"])
 #  claim(id, DESIGN.md section, level text, level note) / na(id, reason)
 COMMON_NOTE = (" Trusted base: Kani/CBMC's model of Rust (dev profile: overflow checks and debug assertions on), 64-bit LE host, "
                "serde/heapless/cobs/crc compiled in from the offline registry, kani::Arbitrary derive enumerates the corpus types. "
@@ -128,6 +128,6 @@ claim("C18", "DESIGN.md §4 C18",
 claim("C19", "DESIGN.md §4 C19",
       "Bounded model checking over the C15 shape corpus with symbolic names: discover_tys returns without panicking for every kind (incl. Usize, Isize, Schema) and the collected items are exactly the root and "
       "every nested schema in pre-order (HashSet::insert replaced by a logging stub, RandomState::new by arbitrary keys - the set is the environment, the traversal the subject); to_pseudocode returns for leaves, "
-      "Option, Tuple, Map and single-variant enums, and mentions the enum's and the variant's name.",
+      "Option, Tuple and Map shapes.",
       "Claimed in part." + STRUCT_GAP + " all_used_types() with the real HashSet is out of reach (hashbrown + SipHash); a change that consults the set's contents (e.g. de-duplication by name) is invisible to the logging stub. "
-      "Rendering of multi-variant enums (Vec<String>::join on the heap) is best-effort." + COMMON_NOTE)
+      "Rendering of enums (Vec<String>::join on the heap; the single-variant harness needs ~14 GB and is unreliable) is best-effort, so the 'mentions every name' clause is NOT decided by the quick tier." + COMMON_NOTE)
